@@ -39,6 +39,8 @@ def build_mesh(v):
     from dataclasses import replace
     kind = v['kind']
     kw = {'sort_t': False} if kind == 'tri' else {}
+    if v.get('mapping') == 'noaffine':               # a simplex mesh that asks for the isoparametric implementation
+        kw['affine'] = False
     unit = 2.0 ** int(v.get('pow2', 0))              # the whole geometry in another length unit (exact scaling)
     m = U.make(kind, np.asarray(v['p'], dtype=np.float64) * unit, v['t'], **kw)
     if v.get('refine'):
@@ -58,7 +60,7 @@ def build_mesh(v):
 def build_mapping(mesh, kind, which):
     import skfem
     from skfem.mapping import MappingAffine, MappingIsoparametric
-    if which == 'default':
+    if which in ('default', 'noaffine'):
         mp = mesh._mapping()
     elif which == 'affine':
         mp = MappingAffine(mesh)
@@ -273,6 +275,16 @@ def pair_events(v):
     if law == 'SubsetCommutes':
         for step in v['steps']:
             fn = step['fn']
+            if 'parts' in step:        # results for the parts of a partition (an empty part included) stack to the whole
+                Xs = X if fn not in FACET_FNS else np.array(XFACET[d - 1], dtype=np.float64).T / D
+                ax = ent_axis(fn)
+                parts = [idx_array(pt) for pt in step['parts']]
+                note = f"{mapname}:stack{[len(pt) for pt in parts]}"
+                out.append(pair_event(law, fn, note,
+                                      lambda fn=fn, Xs=Xs, parts=parts, ax=ax:
+                                      np.concatenate([_call(mp, fn, Xs, pt, mesh) for pt in parts], axis=ax),
+                                      lambda fn=fn, Xs=Xs: _call(mp, fn, Xs, None, mesh)))
+                continue
             ix = idx_array(step['idx'])
             Xs = X if fn not in FACET_FNS else np.array(XFACET[d - 1], dtype=np.float64).T / D
             ax = ent_axis(fn)
@@ -463,6 +475,7 @@ def index_sets(n, rng, full_only=False):
             sub = rng.permutation(n)[:max(2, n // 2)]
             out.append(idx(sub, 'int32'))
         out.append(idx(rng.integers(0, n, size=2 * n)))                       # longer than n, with repeats
+    out += [idx([], 'int32'), idx([], 'int64')]                              # a tag that marks nothing
     if n >= 3:
         inner = list(range(1, n - 1))
         if n >= 4:
@@ -475,6 +488,14 @@ def index_sets(n, rng, full_only=False):
         out.append(idx(rng.permutation(n), 'int32'))                           # random permutation
         out.append(idx(list(range(1, n)) + [0]))                               # rotation
     return out
+
+
+def partitions(n, rng):
+    """Partitions of range(n) into consecutive parts, with empty parts at the front, in the middle and at the end."""
+    cut = int(rng.integers(1, n)) if n >= 2 else n
+    a, b = list(range(cut)), list(range(cut, n))
+    return [[idx([], 'int32'), idx(a + b)], [idx(a), idx([], 'int64'), idx(b, 'int32')], [idx(a + b, 'int32'), idx([])],
+            [idx(a), idx(b)]]
 
 
 def generate(tier, seed):
@@ -516,7 +537,7 @@ def generate(tier, seed):
         fns = ['F', 'DF', 'invDF', 'detDF', 'invF']
         ffns = ['G', 'detDG', 'normals'] if kind not in ('line', 'wedge') else []
         nfac = len(U.make(kind, p, t, **({'sort_t': False} if kind == 'tri' else {})).facets.T) if ffns else 0
-        for mpn in ['default'] + (['iso'] if kind in P1 else []):
+        for mpn in ['default'] + (['iso', 'noaffine'] if kind in P1 else []):
             seqs = []
             base = index_sets(nt, rng)
             for fn in fns:
@@ -529,6 +550,8 @@ def generate(tier, seed):
             fbase = index_sets(nfac, rng) if ffns else []
             for fn in ffns:
                 seqs.append([{'fn': fn, 'idx': i} for i in fbase])
+            seqs.append([{'fn': fn, 'parts': pts} for fn in fns for pts in partitions(nt, rng)]
+                        + [{'fn': fn, 'parts': pts} for fn in ffns for pts in partitions(nfac, rng)])
             for steps in seqs:
                 recs.append({'driver': 'pair', 'family': fam,
                              'v': vrec(kind, p, t, mpn, law='SubsetCommutes', steps=steps)})
